@@ -84,6 +84,20 @@ def check_roundtrip(j) -> None:
     for k, (a, b) in enumerate(zip(sub.instructions, back.instructions)):
         if type(a) is not type(b) or a != b:
             raise Failure(f"roundtrip:instr:{fname}:{a.mnemonic}", case, f"instruction {k}: {a} decoded as {b} ({type(b).__name__})")
+    # the same object serialised again after it was given to another application (instantiate / app_id setter):
+    # the bytes must follow the object's current state, not an earlier serialisation
+    for how in ("instantiate", "setter"):
+        new_id = (j["app_id"] * 7 + (1 if how == "instantiate" else 2)) % 65536
+        try:
+            if how == "instantiate":
+                sub.instantiate(new_id, {})
+            else:
+                sub.app_id = new_id
+            again = deserialize(bytes(sub), flavour=_flav(fname))
+        except Exception as e:
+            raise Failure(f"roundtrip:reserialise-raises:{how}", case, f"re-serialising after {how} raised {type(e).__name__}: {e}")
+        if again.app_id != new_id or again.instructions != sub.instructions or tuple(again.netqasm_version) != tuple(j["version"]):
+            raise Failure(f"roundtrip:stale-after-{how}", case, f"after {how} to application {new_id} the encoded bytes decode with app id {again.app_id}, version {again.netqasm_version}")
 
 
 def check_bytes(fname: str, raw: bytes) -> bool:
